@@ -72,6 +72,9 @@ TraceNext ==
   /\ (E.ev # "scenario" => StateMatchesP(E.st))
 TraceSpec == TraceInit /\ [][TraceNext]_<<vars, l>>
 
+\* published instances never change (scenario resets excepted)
+T_PublishedStable == [][E.ev # "scenario" => \A n \in Node : L1[n] # NoV => L1'[n] = L1[n]]_<<vars, l>>
+
 \* every line was consumed: the real execution is a behaviour of the specification
 Accepted == IF TLCGet("stats").diameter = Len(Trace) THEN TRUE
             ELSE Print(<<"REJECTED_AFTER_LINE", TLCGet("stats").diameter, "OF", Len(Trace)>>, FALSE)
